@@ -79,6 +79,13 @@ func (c *Ctx) checkHeaderAppend(rule, parser, field, literal string) {
 				for _, st := range c.cellStores(cell) {
 					walk(st.Val)
 				}
+			} else if fa, isFA := x.X.(*ssa.FieldAddr); isFA {
+				// the list kept in a field of a local accumulator struct
+				if sts, ok := c.localFieldStores(fa); ok {
+					for _, st := range sts {
+						walk(st.Val)
+					}
+				}
 			}
 		}
 	}
